@@ -504,9 +504,24 @@ class OpsMixin:
                         return False
                     return self.all_equal(oa.items, ob.items)
                 if oa.pre is not None and ob.pre is not None and oa.pre[0].eq(ob.pre[0]):
-                    if len(oa.items) != len(ob.items):
+                    return self.prefix_lists_equal(oa, ob)
+                if (oa.pre is None) != (ob.pre is None):
+                    # an explicit list A against  base[:k] + B:  equal iff k == |A| - |B| and the elements agree position by position
+                    pl, ex_ = (ob, oa) if oa.pre is None else (oa, ob)
+                    need = len(ex_.items) - len(pl.items)
+                    if need < 0:
                         return False
-                    return self.all_equal(oa.items, ob.items)
+                    conj = [pl.pre[1] == need]
+                    pairs = [(ex_.items[i], pl.pre[2](I(i))) for i in range(need)] + list(zip(ex_.items[need:], pl.items))
+                    if z3.is_false(z3.simplify(conj[0])):
+                        return False
+                    for x, y in pairs:
+                        r = self.compare_vals("Eq", x, y)
+                        if r is False:
+                            return False
+                        if r is not True:
+                            conj.append(r.t)
+                    return self.mkbool(z3.And(conj))
                 raise Undecided("equality of symbolic-prefix lists")
             if isinstance(oa, HObj):
                 f = getattr(oa.cls, "__eq__", None)
@@ -557,6 +572,30 @@ class OpsMixin:
         if v is None:
             return "none"
         return type(v).__name__
+
+    def prefix_lists_equal(self, oa, ob):
+        """two views  base[:ka] + A  and  base[:kb] + B  of the SAME symbolic list: equal iff the total lengths agree and the
+        explicit items of the longer tail equal the base elements they sit on"""
+        ka, kb = oa.pre[1], ob.pre[1]
+        A, B = oa.items, ob.items
+        same_k = z3.simplify(ka == kb)
+        if z3.is_true(same_k):
+            if len(A) != len(B):
+                return False
+            return self.all_equal(A, B)
+        if A and B:
+            raise Undecided("equality of symbolic-prefix lists with explicit items on both sides")
+        if B:
+            oa, ob, ka, kb, A, B = ob, oa, kb, ka, B, A
+        # now B == []:  base[:ka] + A  ==  base[:kb]   <=>  ka + |A| == kb  and  A[j] == base[ka + j]
+        conj = [ka + len(A) == kb]
+        for j, x in enumerate(A):
+            r = self.compare_vals("Eq", x, oa.pre[2](z3.simplify(ka + j)))
+            if r is False:
+                return False
+            if r is not True:
+                conj.append(r.t)
+        return self.mkbool(z3.And(conj))
 
     def all_equal(self, xs, ys):
         conj = []
